@@ -112,7 +112,13 @@ def stage(repo=None, need_ast=False):
             shutil.copy(cfgh, os.path.join(tmp, 'config.h'))
             cpp, lflags = _makefile_flags(repo)
             _run(['flex'] + lflags + ['-olexer.c', 'lexer.l'], tmp)
-            _run(['flex', '-Cf', '-8'] + lflags + ['-olexer_full.c', 'lexer.l'], tmp)
+            try:
+                _run(['flex', '-Cf', '-8'] + lflags + ['-olexer_full.c', 'lexer.l'], tmp)
+            except StageError as e:
+                # (REJECT, variable trailing context: flex cannot write full tables.  The IR of the scanner the project
+                # builds is still there for the rules that do not need the automaton; the others report the analysis broken)
+                with open(os.path.join(tmp, 'lexer_full.err'), 'w') as fh:
+                    fh.write(str(e))
             flags = ['-DHAVE_CONFIG_H', '-I.'] + cpp + ['-DLOCALEDIR="/usr/local/share/locale"']
             for u in ('confuse', 'lexer'):
                 _run(['clang', '-O0', '-Xclang', '-disable-O0-optnone', '-g', '-S', '-emit-llvm', '-w']
